@@ -318,6 +318,12 @@ func cmdRelock(args []string) int {
 		}
 		lf.Properties[p] = ent
 		fmt.Printf("%s: %d obligations, %d locked as discharged, %d functions, %d out of subset\n", p, len(br.obls), nd, br.nFuncs, len(br.outOfSubset))
+		for _, o := range br.obls {
+			if o.Kind == "CANARY" && o.Status == "unsat" {
+				fmt.Printf("VACUOUS property=%s obligation=%q: contradictory assumptions on the unchanged tree (fix the contracts or the engine before claiming anything)\n", p, o.ID)
+				relockVacuous++
+			}
+		}
 	}
 	if *pflag == "" {
 		lf.Params = map[string][]string{}
@@ -339,8 +345,13 @@ func cmdRelock(args []string) int {
 	b, _ := json.MarshalIndent(lf, "", " ")
 	os.MkdirAll(filepath.Dir(lockPath()), 0o755)
 	os.WriteFile(lockPath(), b, 0o644)
+	if relockVacuous > 0 {
+		return 3
+	}
 	return 0
 }
+
+var relockVacuous int
 
 func allProps() []string {
 	var out []string
@@ -484,6 +495,12 @@ func cmdCheck(args []string) int {
 		case e.Discharged > 0 || e.Finding:
 			toSolve = append(toSolve, os...)
 		default:
+			if len(os) > 0 && os[0].Kind == "CANARY" {
+				// a vacuity guard is never "baseline-undecided": it is solved on every run and `false` being provable
+				// is reported (the machinery is broken there, whatever the lock says)
+				toSolve = append(toSolve, os...)
+				continue
+			}
 			baselineUndecided += len(os)
 			if len(baselineUndecidedSample) < 10 {
 				baselineUndecidedSample = append(baselineUndecidedSample, g)
@@ -693,6 +710,18 @@ func cmdCheck(args []string) int {
 		*prop, *tier, nDischarged, nLocked, baselineUndecided, len(newObls), br.nFuncs, time.Since(t0).Seconds())
 	if violations > 0 {
 		return 1
+	}
+	vacuous := 0
+	for _, o := range toSolve {
+		if o.Kind == "CANARY" && o.Status == "unsat" {
+			if e := locked[groupOf(o.ID)]; e == nil || e.Discharged == 0 {
+				fmt.Printf("VACUOUS property=%s obligation=%q: the assumptions collected in this function are contradictory; nothing proved after this point counts\n", *prop, o.ID)
+				vacuous++
+			}
+		}
+	}
+	if vacuous > 0 {
+		return 2
 	}
 	return 0
 }
